@@ -13,3 +13,7 @@ TRUSTED_BASE = ["harness/detsched.py: baton scheduler, cooperative replacements 
 
 def run(ctx):
     engine_corr.campaign(ctx, {"C01"})
+    import planlevel
+    import prune_corr
+    planlevel.plan_campaign(ctx, {"C01"}, n_quick=100, n_thorough=2000)
+    prune_corr.run_prune(ctx)       # plan -> run graph: dependencies between surviving nodes (Cache/Prune.v)
